@@ -187,6 +187,10 @@ Check(m, e) ==
          ELSE ""
     [] e.a = "db" -> ChkDb(m, e)
     [] e.a = "pan" -> ChkPan(m, e)
+    \* the time read from the handle of a clock that ran one buffer at 1 - 2^-k ticks per buffer: fraction below 1 (and, beyond
+    \* this property, exactly that number: C05 "never shows a value the clock did not have")
+    [] e.a = "clkread" -> IF e.p THEN "no_panic" ELSE IF ~e.below1 THEN "fraction_in_range"
+                          ELSE IF ~e.exact THEN "handle_time_is_a_time_the_clock_had" ELSE ""
     [] OTHER -> ""
 
 \* sweeps remember the previous point
